@@ -301,6 +301,17 @@ pub fn run(tier: &str, seed: u64, replay: Option<String>) -> i32 {
                 vec![MEdit::ArrayDuplicated { ptr: "/cons/wallcons".into() }],
                 vec![MEdit::RenameAllNames],
                 vec![MEdit::SetAll { ptr: "/walls".into(), key: "name".into(), value: json!("mismo nombre"), only_if: None }],
+                // one id living in two collections (ids only have to be unique inside a collection)
+                vec![MEdit::ShareIdAcross { a: "wallcons".into(), b: "wincons".into() }],
+                vec![MEdit::ShareIdAcross { a: "wincons".into(), b: "wallcons".into() }],
+                vec![MEdit::ShareIdAcross { a: "spaces".into(), b: "walls".into() }],
+                vec![MEdit::ShareIdAcross { a: "walls".into(), b: "spaces".into() }],
+                vec![MEdit::ShareIdAcross { a: "walls".into(), b: "wallcons".into() }],
+                vec![MEdit::ShareIdAcross { a: "spaces".into(), b: "wincons".into() }],
+                vec![MEdit::ShareIdAcross { a: "windows".into(), b: "walls".into() }],
+                vec![MEdit::ShareIdAcross { a: "thermal_bridges".into(), b: "spaces".into() }],
+                // windows moved far outside their walls
+                vec![MEdit::ScaleAll { gptr: "/windows/*/geometry/position/*".into(), factor: 25.0 }],
             ];
             let mut unusual = unusual;
             // closed models on which the indicator computation itself has something to say
